@@ -55,20 +55,71 @@ def build_harness():
     return time.time() - t0
 
 
+CRASHES = []      # process deaths of the harness (abort, segfault, time-out inside one run): data, not tool errors
+
+
 def drive(engine, runs, workdir, tag, timeout=1800):
     """Write runs (list of dict run/cfg/ops) to an ops file, execute them on the real code,
-    return the path of the recorded NDJSON trace."""
+    return the path of the recorded NDJSON trace.  If the code under test kills the harness
+    process (non-unwinding panic, abort, segfault, hang), the run that did it is recorded in
+    CRASHES and the remaining runs are executed by a fresh process."""
     os.makedirs(workdir, exist_ok=True)
-    ops = os.path.join(workdir, tag + ".ops.ndjson")
     trace = os.path.join(workdir, tag + ".trace.ndjson")
-    with open(ops, "w") as f:
-        for r in runs:
-            f.write(json.dumps(r, separators=(",", ":")) + "\n")
-    p = subprocess.run(["timeout", str(timeout), HARNESS_BIN, engine, ops, trace],
-                       stdout=subprocess.PIPE, stderr=subprocess.STDOUT, text=True)
-    if p.returncode != 0:
-        raise ToolError("harness %s failed rc=%d: %s" % (engine, p.returncode, p.stdout[-2000:]))
+    part = os.path.join(workdir, tag + ".part.ndjson")
+    ops = os.path.join(workdir, tag + ".ops.ndjson")
+    open(trace, "w").close()
+    todo = list(runs)
+    deaths = 0
+    while todo:
+        with open(ops, "w") as f:
+            for r in todo:
+                f.write(json.dumps(r, separators=(",", ":")) + "\n")
+        p = subprocess.run(["timeout", str(timeout), HARNESS_BIN, engine, ops, part],
+                           stdout=subprocess.PIPE, stderr=subprocess.PIPE, text=True)
+        with open(part) as src, open(trace, "a") as dst:
+            last_run = None
+            for line in src:
+                if not line.endswith("\n"):
+                    break                      # torn last line of a dead process
+                dst.write(line)
+                if line.startswith('{"ev":"reset"') or '"ev":"reset"' in line[:200]:
+                    try:
+                        last_run = json.loads(line)["run"]
+                    except Exception:
+                        pass
+        os.remove(part)
+        if p.returncode == 0:
+            break
+        if p.returncode == 2 or last_run is None:
+            raise ToolError("harness %s failed rc=%d: %s" % (engine, p.returncode, p.stderr[-2000:]))
+        deaths += 1
+        if deaths > 30:
+            raise ToolError("harness %s died more than 30 times; last: %s" % (engine, p.stderr[-1000:]))
+        msgs = [ln for ln in p.stderr.split("\n") if ln.strip()]
+        msg = " | ".join(msgs[-3:])[:400].replace('"', "'")
+        CRASHES.append({"run": last_run, "rc": p.returncode,
+                        "what": "the process died in this run (rc=%d): %s" % (p.returncode, msg)})
+        idx = next((i for i, r in enumerate(todo) if r["run"] == last_run), None)
+        if idx is None:
+            raise ToolError("harness died in an unknown run %r" % last_run)
+        with open(trace, "a") as dst:
+            dst.write(json.dumps({"run": last_run, "ev": "reset_after_crash"}) + "\n")
+        todo = todo[idx + 1:]
+    os.remove(ops)
     return trace
+
+
+def crash_viols(props, runs_by_id=None, engine=None, driver="crash"):
+    """Drain CRASHES into violation records, one per property in props."""
+    out = []
+    while CRASHES:
+        c = CRASHES.pop()
+        for p in props:
+            v = {"prop": p, "run": c["run"], "line": 0, "what": c["what"], "driver": driver}
+            if runs_by_id is not None:
+                v["replay"] = {"engine": engine, "run": runs_by_id.get(c["run"])}
+            out.append(v)
+    return out
 
 
 def label_event(label, prefix="Step("):
@@ -91,7 +142,8 @@ class Result:
                                 "distinct": res["distinct"], "depth": res["depth"],
                                 "wall_s": round(res["wall_s"], 2), "constants": constants or ""})
 
-    def add_tv(self, tv, runs_by_id, engine, driver, props=None):
+    def add_tv(self, tv, runs_by_id, engine, driver, crash_props=()):
+        self.data["viol"] += crash_viols(crash_props, runs_by_id, engine, driver)
         self.data["tv_runs"] += len(runs_by_id)
         self.data["tv_events"] += tv["events"]
         for v in tv["viol"]:
